@@ -113,6 +113,15 @@ type Env struct {
 
 func NewEnv(parent *Env) *Env { return &Env{vars: map[types.Object]*Cell{}, parent: parent} }
 
+// Each visits every binding visible from e (inner scopes first).
+func (e *Env) Each(f func(o types.Object, c *Cell)) {
+	for s := e; s != nil; s = s.parent {
+		for o, c := range s.vars {
+			f(o, c)
+		}
+	}
+}
+
 func (e *Env) Lookup(o types.Object) *Cell {
 	for s := e; s != nil; s = s.parent {
 		if c, ok := s.vars[o]; ok {
@@ -155,7 +164,7 @@ type IndCall struct {
 }
 
 type Stream struct {
-	Ind *IndCall
+	Ind      *IndCall
 	ID       int
 	Name     string
 	Pos      token.Pos
